@@ -264,6 +264,28 @@ def driver_eval(binary, cases, workdir, tag="cases", timeout=1800, stall=None):
     return results
 
 
+# ---------------------------------------------------------------- source baseline (escalation only, never a verdict)
+def source_changed(pid):
+    """anchored files of the property (properties.jsonl) whose sha256 differs from tools/source_baseline.json"""
+    import hashlib
+    try:
+        base = json.load(open(os.path.join(ROOT, "tools", "source_baseline.json")))
+        files = None
+        for line in open(os.path.join(ROOT, "properties.jsonl")):
+            d = json.loads(line)
+            if d.get("id") == pid:
+                files = d.get("anchors", {}).get("files", [])
+        out = []
+        for f in files or []:
+            pth = os.path.join(REPO, f)
+            h = hashlib.sha256(open(pth, "rb").read()).hexdigest() if os.path.exists(pth) else "missing"
+            if base.get(f) != h:
+                out.append(f)
+        return out
+    except Exception:
+        return []
+
+
 # ---------------------------------------------------------------- sibling stream
 def sibling_cases(gen, rng, tier, mod):
     """Call-history stream shared by all properties: triples (base, sibling, base) run back to back in the one driver
@@ -503,14 +525,28 @@ def main():
                     corpus.append((o["case"][0], list(o["case"][1])))
                 except Exception:
                     pass
-    pre = None
-    if hasattr(mod, "presample"):
-        pcs = [(op, [str(a) for a in args]) for (op, args) in mod.presample(rng, tier)]
-        pres = driver_eval(binary, pcs, work, "presample")
-        pre = [(c, r[0]) for c, r in zip(pcs, pres)]
-        gen = [(op, [str(a) for a in args]) for (op, args) in mod.generate(rng, tier, pre)]
-    else:
-        gen = [(op, [str(a) for a in args]) for (op, args) in mod.generate(rng, tier)]
+    def gen_for(r, t):
+        if hasattr(mod, "presample"):
+            pcs = [(op, [str(a) for a in args]) for (op, args) in mod.presample(r, t)]
+            pres = driver_eval(binary, pcs, work, "presample")
+            pre = [(c, x[0]) for c, x in zip(pcs, pres)]
+            return [(op, [str(a) for a in args]) for (op, args) in mod.generate(r, t, pre)]
+        return [(op, [str(a) for a in args]) for (op, args) in mod.generate(r, t)]
+
+    gen = gen_for(rng, tier)
+    # Escalation: when the source files the property is anchored in differ from the baseline this machinery was last
+    # validated against (tools/source_baseline.json), the quick tier also draws from the thorough generator: all quick
+    # cases plus a random sample of the thorough ones, twice the size of the quick set.  Changed code gets a deeper look;
+    # nothing is concluded from the textual difference itself.
+    changed = source_changed(pid) if tier == "quick" and os.environ.get("VERIF_NO_ESCALATION") != "1" else []
+    if changed:
+        seen = {(op, tuple(a)) for op, a in gen}
+        deep = [c for c in gen_for(random.Random(seed + 1), "thorough") if (c[0], tuple(c[1])) not in seen and sum(len(x) for x in c[1]) <= 20000]
+        extra = random.Random(seed + 2).sample(deep, min(len(deep), 2 * len(gen) + 200))
+        gen = gen + extra
+        msg = "anchored source changed since the validated baseline (%s): quick tier escalated with %d cases sampled from the thorough generator" % (", ".join(changed[:4]), len(extra))
+        log("NOTE: " + msg)
+        notes.append(msg)
     findings, fixed = load_known(pid)
     wit = []
     for e in findings + fixed:
